@@ -649,6 +649,7 @@ class Resource(object):
                 container.eSet(feature, None)
 
     def remove(self, root):
+        root = getattr(root, '_wrapped', None) or root  # (a resolved proxy)
         # by identity: another root may compare equal to this one
         index = next((i for i, x in enumerate(self.contents) if x is root),
                      None)
